@@ -8,10 +8,11 @@ The constants (100, 6), the `==` of completion and the `<=` / `=` of the tracker
 from the sources (`Gen`).
 -/
 import TeosVerif.Lemmas.Tower
+import TeosVerif.Lemmas.TowerChain
 import TeosVerif.Gen.Calls
 
 namespace Teos.C04
-open Teos
+open Teos Teos.TxIndex
 
 /-- **completion_iff_100**: a tracker is reported completed at height `H` exactly when it is
 recorded as confirmed at some `h`, its confirming block has not been disconnected, its penalty is
@@ -247,5 +248,57 @@ theorem deletion_call_sites_are_the_modelled_ones :
       ("responder", "rebroadcast_stale_txs", "")] ∧
     Gen.Calls.removeUsers = [("gatekeeper", "filtered_block_connected", "")] := by
   decide
+
+/-! ### whole histories, against the active chain -/
+
+/-- **confirmed_only_in_the_active_chain**: start a fresh tower on any recent blocks and run ANY valid
+history of requests, block connections and disconnections (reorgs of any shape no deeper than the index
+holds, any node behaviour, no bound on length). In the state reached, every tracker recorded as
+`ConfirmedIn(h)` either awaits re-announcement because its block was just disconnected (it is in the
+responder's `reorged` set, emptied by the next connected block), or the block at height `h` of the
+ACTIVE chain really contains its penalty. -/
+theorem confirmed_only_in_the_active_chain (cfg : Cfg) (height : Nat) (blocks : List (Nat × List TxId))
+    (hpos : 0 < blocks.length) (hle : blocks.length ≤ height) (hnb : (blocks.map (·.1)).Nodup)
+    (hnk : (blocks.flatMap (·.2)).Nodup) (hist : List (Node × Op))
+    (hv : HistoryValidC cfg (height - blocks.length) (boot Db.empty height blocks, bootChain blocks) hist)
+    (k : Uuid) (t : Tracker) (h : Nat) :
+    let r := runC cfg (boot Db.empty height blocks, bootChain blocks) hist
+    r.1.db.trackers k = some t → t.status = .confirmedIn h →
+    k ∈ r.1.mem.reorged ∨ ConfOk r.2 (height - blocks.length) t.penalty h := by
+  intro r hx hs
+  exact (cinv_history cfg _ hist _ (cinv_boot height blocks hpos hle hnb hnk) hv).conf k t h hx hs
+
+/-- **after_a_connected_block_every_confirmation_is_true**: once a block has been processed nothing is
+excused any more: every `ConfirmedIn(h)` of the resulting state is true of the active chain (trackers
+whose block had been disconnected were re-confirmed in the new block, re-announced and reset to
+"in mempool", or dropped because the node rejected them). -/
+theorem after_a_connected_block_every_confirmation_is_true (cfg : Cfg) (s : Tower) (C : Chain) (base : Nat)
+    (node : Node) (b height : Nat) (txs : List TxId) (hinv : CInv s C base)
+    (hv : OpValidC s C base (.connect b height txs)) (k : Uuid) (t : Tracker) (h : Nat) :
+    (connectBlock cfg s node b height txs).1.db.trackers k = some t → t.status = .confirmedIn h →
+    ConfOk (C ++ [(b, blockData b txs)]) base t.penalty h :=
+  (cinv_connectBlock cfg s C base node b height txs hinv hv.1 hv.2.1 hv.2.2).2 k t h
+
+/-- the invariant is kept by every valid operation from any state satisfying it, and holds at start-up -/
+theorem chain_invariant_step (cfg : Cfg) (s : Tower) (C : Chain) (base : Nat) (node : Node) (op : Op)
+    (h : CInv s C base) (hv : OpValidC s C base op) : CInv (step cfg s node op).1 (chainStep C op) base :=
+  cinv_step cfg s C base node op h hv
+
+/-! non-vacuity: a history with a breach, the penalty's block, a reorg of that block and a replacement
+block that confirms the penalty again is valid, and ends with the tracker confirmed in the new block -/
+
+def cNode : Node := { send := fun _ => .ok, get := fun _ => .rpc (-5) }
+def cCfg : Cfg := { slots := 10, duration := 1000, grace := 10 }
+def cHist : List (Node × Op) :=
+  [(cNode, .register 7), (cNode, .add (some 7) 2 (.enc 32 99 10) 20 1),
+   (cNode, .connect 1000 101 [32, 500]), (cNode, .connect 1001 102 [99]),
+   (cNode, .disconnect 1001 102), (cNode, .connect 1002 102 [99, 7])]
+
+example : HistoryValidC cCfg 99 (boot Db.empty 100 [(999, [1])], bootChain [(999, [1])]) cHist := by
+  refine ⟨trivial, trivial, ⟨⟨by decide, by decide⟩, by decide, by decide⟩, ⟨⟨by decide, by decide⟩, by decide, by decide⟩,
+    ⟨⟨⟨_, _, rfl⟩, by decide⟩, by decide, by decide⟩, ⟨⟨by decide, by decide⟩, by decide, by decide⟩, trivial⟩
+
+example : ((runC cCfg (boot Db.empty 100 [(999, [1])], bootChain [(999, [1])]) cHist).1.db.trackers (2, 7)).map (·.status)
+    = some (.confirmedIn 102) := by decide
 
 end Teos.C04
